@@ -457,8 +457,15 @@ func (e *Extractor) invokeXObject(name string) error {
 		}
 	}
 
-	// Register fonts from XObject's resources
+	// Register fonts from XObject's resources. They are in force inside the
+	// form only: a name the form binds to another font means the page's font
+	// again once the form ends
+	var fontsBefore map[string]*font.Font
 	if xobjResources != nil {
+		fontsBefore = make(map[string]*font.Font, len(e.fonts))
+		for k, v := range e.fonts {
+			fontsBefore[k] = v
+		}
 		if err := e.RegisterFontsFromResources(xobjResources, e.resolver); err != nil {
 			// Non-fatal - continue with existing fonts
 		}
@@ -490,6 +497,9 @@ func (e *Extractor) invokeXObject(name string) error {
 	if err != nil {
 		// Restore state and return error
 		e.resources = oldResources
+		if fontsBefore != nil {
+			e.fonts = fontsBefore
+		}
 		e.xobjectDepth--
 		e.gs.Restore()
 		return fmt.Errorf("failed to parse XObject content: %w", err)
@@ -504,6 +514,9 @@ func (e *Extractor) invokeXObject(name string) error {
 
 	// Restore state
 	e.resources = oldResources
+	if fontsBefore != nil {
+		e.fonts = fontsBefore
+	}
 	e.xobjectDepth--
 	e.gs.Restore()
 
